@@ -117,6 +117,8 @@ def build_texts(lim, tier):
             return 0
         if t['cls'] == 'mutant':
             return 3
+        if t['args'] and not re.match(r'k[A-Z]', t['name']):
+            return 1          # non-default back-end: early
         if re.match(r'(k[A-Z]|props|opts|derived)', t['name']):
             return 2
         if re.search(r'(%d|%d|%d|%d)(_|$|@)' % (lim['MAX_PARAM_COUNT'] - 1, lim['MAX_PARAM_COUNT'], lim['MAX_DEP_IN_COUNT'] - 1, lim['MAX_DEP_IN_COUNT']), t['name']):
